@@ -282,6 +282,31 @@ def harness_fault(eng, ctx):
         eng.note({'t': 'sample', 'v': {'step': step, 'kind': kind, 'statements_in_step': n, 'statement_0': b.log[step][0]}})
 
 
+def harness_rerun(eng, ctx):
+    """A step that has already succeeded is attempted again (it fails on its singleton /
+    primary keys, or on an injected fault, or is killed): the file must keep its complete content."""
+    b = ctx['bases']
+    steps = list(STEPS)
+    step = steps[eng.choose(len(steps), 'step')]
+    mode = eng.choose(3, 'mode')          # 0: natural failure, 1: injected error, 2: kill
+    k = eng.choose(min(b.count[step], 6), 'statement') if mode else 0
+    for nm, v in (('step', steps.index(step)), ('mode', mode), ('statement', k)):
+        eng._register(nm, symx.SymInt(symx.z3.IntVal(v)))
+    d, db = scratch(ctx, b.after[step])
+    try:
+        if mode == 2:
+            run_step_killed(db, step, k)
+        else:
+            run_step(db, step, FaultPlan(k if mode == 1 else None, 'raise'))
+        got = dump(db)
+        eng.prove(got == b.dump_after[step], 'C20: a failed attempt to repeat a completed step leaves its result untouched',
+                  detail='%s, %s at statement %d: tables that changed %r' % (
+                      step, ('natural failure', 'injected error', 'kill')[mode], k, [t for t in got if got[t] != b.dump_after[step].get(t)]))
+    finally:
+        shutil.rmtree(d, ignore_errors=True)
+    eng.note({'t': 'reached'})
+
+
 def orders():
     import itertools
     first = list(itertools.permutations(['classify', 'set-zeta-grid', 'set-curvature']))
@@ -354,7 +379,7 @@ class C20(Check):
             self.unit('spowtd.recession', 'find_recession_offsets')
             self.bounds = {'steps': list(STEPS), 'statements per step (every one is a fault point, plus commit)': dict(bases.count),
                            'fault kinds': ['raise sqlite3.OperationalError before the statement', 'kill the process (os._exit in a forked child) before the statement'],
-                           'orders of independent steps': len(orders()), 'failed attempts in between': 'none (quick) / one at every position (thorough)',
+                           'orders of independent steps': len(orders()), 'repeating a completed step': 'natural failure, injected error or kill at the first 6 statements', 'failed attempts in between': 'none (quick) / one at every position (thorough)',
                            'dataset': 'planted record, 3 storms + 3 recessions, a hole in the level record (two data intervals), a final rainless jump to the record maximum (concrete)'}
             self.assumptions = ['durability below the SQLite API (torn pages, fsync) is SQLite\'s own guarantee', '`load` is outside ("after loading")',
                                 'data are concrete: the quantifier is over fault points, fault kinds, orders and failed attempts']
@@ -364,6 +389,8 @@ class C20(Check):
             self.absorb(exp, need_paths=10)
             exp = symx.explore(harness_order, dict(ctx, failed_attempts=not quick), name='orders')
             self.absorb(exp, need_paths=12)
+            exp = symx.explore(harness_rerun, ctx, name='repeat_completed_step')
+            self.absorb(exp, need_paths=5)
             self.extra['evaluations'] = sum(e['paths'] for e in self.explorations)
             self.extra['distinct_nontrivial'] = sum(e['paths'] for e in self.explorations)
             self.extra['rule'] = ('one evaluation = one (step, fault kind, statement index) triple or one (order, failed-attempt position) pair run on '
@@ -379,6 +406,17 @@ class C20(Check):
         try:
             bases = Bases(root)
             ctx = {'bases': bases, 'root': root}
+            if failure['harness'].startswith('repeat'):
+                step = list(STEPS)[int(m.get('step', 0))]
+                mode, k = int(m.get('mode', 0)), int(m.get('statement', 0))
+                d, db = scratch(ctx, bases.after[step])
+                if mode == 2:
+                    run_step_killed(db, step, k)
+                else:
+                    run_step(db, step, FaultPlan(k if mode == 1 else None, 'raise'))
+                got = dump(db)
+                info['observed'] = {'step': step, 'mode': mode, 'statement': k, 'tables_changed': [t for t in got if got[t] != bases.dump_after[step].get(t)]}
+                return got != bases.dump_after[step], info
             if failure['harness'].startswith('fault'):
                 step = list(STEPS)[int(m.get('step', 0))]
                 kind = 'raise' if int(m.get('kind', 0)) == 0 else 'kill'
